@@ -39,13 +39,39 @@ def c16_stages(ctx):
     graph_stage(ctx, "fscore-quick", "MC_FSCore.tla", "FSCore.quick.cfg", "fscore", FS_ADAPTERS, ["--names", "a,b", "--depth", "3"])
 
 
+SUB_SPEC = ["sub=d=mem", "sub=d/e=kvplain", "sub=d=sub=e=mem", "sub=d=oshp", "sub=d=mntat"]   # state follows FSCore inside the view
+SUB_TWIN = ["sub=d=openonly", "sub=d=mntabove"]                                                # twin comparison only
+
+
+def sub_stages(ctx, wf="-"):
+    cfgs = [("FSCore.quick.cfg", "3")] if ctx.tier == "quick" else [("FSCore.quick.cfg", "3"), ("FSCore.thorough.cfg", "4")]
+    for cfg, depth in cfgs:
+        graph_stage(ctx, "sub-spec-" + cfg.split(".")[1], "MC_FSCore.tla", cfg, "fscore", SUB_SPEC,
+                    ["--names", "a,b", "--depth", depth, "--attr", "wf:" + wf], workers=8)
+        graph_stage(ctx, "sub-twin-" + cfg.split(".")[1], "MC_FSCore.tla", cfg, "fscore", SUB_TWIN,
+                    ["--names", "a,b", "--depth", depth, "--attr", "err:-,wf:" + wf], workers=8)
+
+
+def c03_all(ctx):
+    c03_stages(ctx)
+    mount_stages(ctx)
+    sub_stages(ctx, wf="C03")
+
+
+def c05_all(ctx):
+    fscore_stages(ctx)
+    mount_stages(ctx)
+    sub_stages(ctx)
+
+
 CHECKS.update({
+    "C07": sub_stages,
     "C02": c02_stages,
     "C16": c16_stages,
     "C17": c02_stages,
     "C01": fscore_stages,
-    "C03": c03_stages,
-    "C05": fscore_stages,
+    "C03": c03_all,
+    "C05": c05_all,
 })
 
 
